@@ -43,7 +43,11 @@ func optionFullName(opt *optionreflect.OptionDefinition) string {
 
 	return fmt.Sprintf("(%s).%s", name, strings.Join(opt.SubPath, "."))
 }
-func parseOption(opt *optionreflect.OptionDefinition) parsedOption {
+
+// parseOption gives the statements an option is written as: one, or one per
+// element for a repeated option (the list syntax `[a, b]` only exists inside a
+// message literal).
+func parseOption(opt *optionreflect.OptionDefinition) []parsedOption {
 
 	maxDepth, ok := maxExtDepth[opt.Desc.FullName()]
 	if !ok {
@@ -67,42 +71,45 @@ func parseOption(opt *optionreflect.OptionDefinition) parsedOption {
 	sourceSingleLine := opt.SourceLocation == nil || opt.SourceLocation.SingleLine
 	inlineWithParent := opt.SourceLocation == nil || opt.SourceLocation.InLineWithParent
 
-	parsed := parsedOption{
-		root:          root,
-		def:           opt,
-		inline:        inlineWithParent,
-		qualifiedName: optionFullName(opt),
+	values := []optionreflect.OptionField{root}
+	if root.FieldType == optionreflect.FieldTypeArray {
+		values = root.Children
 	}
 
+	qualifiedName := optionFullName(opt)
+	parsed := make([]parsedOption, 0, len(values))
+	for _, value := range values {
+		parsed = append(parsed, parsedOption{
+			root:          value,
+			def:           opt,
+			inline:        inlineWithParent,
+			inlineString:  inlineValue(value, sourceSingleLine),
+			qualifiedName: qualifiedName,
+		})
+	}
+	return parsed
+}
+
+func inlineValue(root optionreflect.OptionField, sourceSingleLine bool) *string {
 	if !sourceSingleLine {
-		return parsed
+		return nil
 	}
 
 	switch root.FieldType {
 	case optionreflect.FieldTypeMessage:
 		if len(root.Children) == 0 {
-			parsed.inlineString = proto.String("{}")
-			return parsed
+			return proto.String("{}")
 		}
 		if len(root.Children) == 1 {
 			child := root.Children[0]
 			if child.FieldType == optionreflect.FieldTypeScalar {
-				parsed.inlineString = proto.String(fmt.Sprintf("{%s: %s}", child.Key, child.ScalarValue))
-				return parsed
+				return proto.String(fmt.Sprintf("{%s: %s}", child.Key, child.ScalarValue))
 			}
 		}
-		return parsed
-	case optionreflect.FieldTypeArray:
-
-		if len(root.Children) == 0 {
-			parsed.inlineString = proto.String("[]")
-			return parsed
-		}
-		return parsed
+		return nil
 
 	case optionreflect.FieldTypeScalar:
-		parsed.inlineString = proto.String(root.ScalarValue)
-		return parsed
+		return proto.String(root.ScalarValue)
 
 	default:
 		panic(fmt.Sprintf("unexpected type %v", root.FieldType))
@@ -118,10 +125,11 @@ func (fb *fileBuilder) optionsFor(thing protoreflect.Descriptor) ([]parsedOption
 
 	parsed := make([]parsedOption, 0, len(options))
 	for _, opt := range options {
-		parsed = append(parsed, parseOption(opt))
+		parsed = append(parsed, parseOption(opt)...)
 	}
 
-	slices.SortFunc(parsed, func(i, j parsedOption) int {
+	// stable: the elements of a repeated option keep their order
+	slices.SortStableFunc(parsed, func(i, j parsedOption) int {
 		if i.qualifiedName < j.qualifiedName {
 			return -1
 		}
@@ -135,8 +143,12 @@ func (fb *fileBuilder) optionsFor(thing protoreflect.Descriptor) ([]parsedOption
 }
 
 func (extInd *fileBuilder) printOption(opt *optionreflect.OptionDefinition) {
+	for _, parsed := range parseOption(opt) {
+		extInd.printOptionStatement(parsed)
+	}
+}
 
-	parsed := parseOption(opt)
+func (extInd *fileBuilder) printOptionStatement(parsed parsedOption) {
 
 	typeName := parsed.qualifiedName
 	if parsed.inlineString != nil {
@@ -153,10 +165,6 @@ func (extInd *fileBuilder) printOption(opt *optionreflect.OptionDefinition) {
 		extInd.p("option ", typeName, " = {")
 		extInd.printOptionMessageFields(parsed.root.Children)
 		extInd.endElem("};")
-
-	case optionreflect.FieldTypeArray:
-		opener := fmt.Sprintf("option %s", typeName)
-		extInd.printOptionArray(opener+" = ", parsed.root.Children, ";")
 
 	case optionreflect.FieldTypeScalar:
 		extInd.p("option ", typeName, " = ", parsed.root.ScalarValue, ";")
@@ -262,8 +270,6 @@ func (fb *fileBuilder) printFieldStyle(name string, number int32, elem protorefl
 				extInd.p(parsed.qualifiedName, " = {")
 				extInd.printOptionMessageFields(parsed.root.Children)
 				extInd.endElem("}", trailer)
-			case optionreflect.FieldTypeArray:
-				extInd.printOptionArray(parsed.qualifiedName+" = ", parsed.root.Children, trailer)
 			case optionreflect.FieldTypeScalar:
 				extInd.p(parsed.qualifiedName, " = ", parsed.root.ScalarValue, trailer)
 			}
